@@ -9,7 +9,7 @@ CONSTANTS Keys = {"a", "b"}
           MaxObj = 2
           Depth = 0
           KeepHist = FALSE
-          SetAdjs = {"f", "m"}
+          SetAdjs = {"f"}
           Fan = 0
 INIT Init
 NEXT Next
